@@ -122,9 +122,9 @@ func (s *shortSim) queries(n int, rpcToo bool) {
 		q := genShortQuery(s.rng, s.g, head, len(s.e.pre))
 		want, _, _ := s.e.expected(q)
 		pgs := pagingsFor(s.rng, len(want), false, 3)
-		s.e.check(q, pgs, head+4)
+		ok := s.e.check(q, pgs, head+4)
 		s.r.Case(fmt.Sprintf("short|%s|n%d|pre%d|%s|r%d", q.F.shape(), bucket(len(want)), len(s.e.pre), s.e.t.epochKind, min(s.e.t.reorgs, 2)))
-		if rpcToo && len(s.e.pre) == 0 {
+		if ok && rpcToo && len(s.e.pre) == 0 {
 			s.rpcQuery(q)
 		}
 	}
